@@ -401,12 +401,23 @@ def _use(run, P):
              and "startswith('!')" in ast.unparse(n.test)]
     wraps = [x for x in ast.walk(f.node) if isinstance(x, ast.Call) and dotted(x.func) == "wrap_line"]
     ok = False
+    recv = arg = None
     if tests and wraps:
-        t = tests[0].test
+        from .util import path_conditions, _strip_not
+        t, _pol = _strip_not(tests[0].test)
         recv = t.func.value if isinstance(t, ast.Call) and isinstance(t.func, ast.Attribute) else None
         arg = wraps[0].args[0] if wraps[0].args else None
-        ok = recv is not None and arg is not None and norm(recv) == norm(arg) \
-            and any(x is wraps[0] for s in tests[0].orelse for x in ast.walk(s))
+        # the wrapping call runs only when the comment test fails, however that is laid out
+        def holds(s_):
+            if isinstance(s_, (ast.For, ast.While)):
+                head = s_.iter if isinstance(s_, ast.For) else s_.test
+                return any(x is wraps[0] for x in ast.walk(head))
+            if isinstance(s_, (ast.If, ast.Try, ast.With, ast.FunctionDef)):
+                return False
+            return any(x is wraps[0] for x in ast.walk(s_))
+        guarded = any((norm(t), False) in path_conditions(f.node, s_)
+                      for s_ in ast.walk(f.node) if isinstance(s_, ast.stmt) and holds(s_))
+        ok = recv is not None and arg is not None and norm(recv) == norm(arg) and guarded
     run.ob("C20.use", f, tests[0] if tests else f.node, ok,
            construct=f"comment test on {norm(recv) if tests and wraps and recv is not None else '?'}; "
                      f"wrapping {norm(arg) if tests and wraps and arg is not None else '?'}",
